@@ -21,13 +21,13 @@ CLAIMS = {
     "C01": ("proof",
             "Decided at the gates every insertion must pass: time-window/shift gate (accept => step simulation of the inserted leg feasible; complete over all f64 in [0,1e9] in the thorough tier, "
             "integer-valued domain in the quick tier), capacity gate has_demand_violation for Single- and MultiDimLoad (sound and complete w.r.t. the fit conditions; complete proofs, loops are the constant 8), "
-            "load algebra == element-wise spec, tour size gate exact (complete), distance-limit gate exact and duration-limit gate sound against a replay (bounded), job-group gate (bounded), the combinator consulting every constraint (bounded <= 3); lemmas L01 (capacity conditions => no point of the interval exceeds capacity) and L06 (latest-arrival recurrence => later windows kept), any length." + GLUE,
-            "Trusted: Kani/CBMC; stub environments of the extracted gates; meaning of cached latest_arrival / load vectors (U03a bounded); every search operator, goal assembly, "
-            "skills/groups/compatibility/tour-order/reachable/break/reload/recharge/locking gates are NOT under contract: a mutation there is not detected.",
+            "load algebra == element-wise spec, tour size gate exact (complete), distance-limit gate exact and duration-limit gate sound against a replay (bounded), skills gate (19 constant instances), reachability and compatibility gates exact (complete), job-group gate (bounded), multi-job dynamic demand checked in every reload interval from the insertion on (bounded), the combinator consulting every constraint (bounded <= 3); lemmas L01 (capacity conditions => no point of the interval exceeds capacity) and L06 (latest-arrival recurrence => later windows kept), any length." + GLUE,
+            "Trusted: Kani/CBMC; stub environments of the extracted gates; meaning of cached latest_arrival / load vectors (U03a, U05c bounded); every search operator, goal assembly, "
+            "tour-order/break/reload/recharge/locking gates are NOT under contract: a mutation there is not detected.",
             TECH_K, "§3 C01"),
     "C02": ("proof",
             "Primitives that move a job between buckets: JobRemovalTracker::try_remove_job (exact whole-state postcondition: job leaves one tour entirely and is queued once, locked/other routes/unassigned/ignored untouched, "
-            "false => nothing changes) verified against the verified contracts of every Tour mutator (representation invariant jobs == jobs of activities); Verus, unbounded; lemma L02: removal / insertion / finalisation steps satisfying these contracts conserve, for every job, the number of places it lives in." + GLUE,
+            "false => nothing changes) verified against the verified contracts of every Tour mutator (representation invariant jobs == jobs of activities); Verus, unbounded; lemma L02: removal / insertion / finalisation steps satisfying these contracts conserve, for every job, the number of places it lives in; insertion application / failure handling / finalisation / re-queuing (insertions.rs verbatim) keep every job accounted exactly once on small constant-shaped states (Kani, bounded; the heavier ones in the thorough tier only)." + GLUE,
             "Trusted: Verus/Z3; Job identity model (Arc pointer identity), Vec::retain contract; insertion application, finalisation, route removal, decomposition merge, solution_writer are NOT under contract.",
             TECH_V, "§3 C02"),
     "C03": ("model_checking",
@@ -43,7 +43,7 @@ CLAIMS = {
     "C05": ("model_checking",
             "Stale-flag protocol: every mutable RouteContext accessor marks the context stale (Verus, unbounded); accept_route_state clears and recomputes exactly the stale routes, runs every hook once in order; "
             "accept_solution_state restarts until a full pass is change-free and leaves all routes fresh (bounded); schedule/statistics recomputation is independent of the previous cache content (bounded <= 2 activities); job-group tags of every route equal recomputation from its tour after every hand-over and insertion, whatever the stale flags (bounded, U05d)." + GLUE,
-            "Bounded Kani harnesses + Verus accessors; the individual features' accept_* hooks (capacity states, groups, compatibility, tour order, reloads, limits) are NOT under contract.",
+            "Bounded Kani harnesses + Verus accessors; of the individual features' accept_* hooks groups (U05d), compatibility (U01g) and capacity states (U05c) are under contract; tour order, reloads, limits, fast service are NOT.",
             TECH_M, "§3 C05"),
     "C06": ("proof",
             "Soundness: time-window gate and capacity gate accept only legs whose step simulation is feasible (complete Kani proofs, see C01). Completeness: on the exact (integer-valued) domain a feasible leg in a consistent tour "
@@ -88,7 +88,7 @@ CLAIMS = {
             TECH_V, "§3 C16"),
     "C18": ("proof",
             "SlotMachine: one-step contract from any state in the invariant box (shape +1/2 and positive, rate non-decreasing positive finite, variance finite >= 0, mean within hull of old mean and reward up to one ulp, "
-            "sampler preconditions met) - complete in the thorough tier (n < 2^40), n < 2^12 in the quick tier; termination estimates in [0,1] (see C07); MinVariation::is_termination updates its window exactly once per generation in every phase and fires iff allowed and the window says so (bounded, U18d).",
+            "sampler preconditions met) - complete in the thorough tier (n < 2^40), n < 2^12 in the quick tier; termination estimates in [0,1] (see C07); MinVariation::is_termination updates its window exactly once per generation in every phase and fires iff allowed and the window says so (bounded, U18d); random_argmax returns a maximal entry for every non-empty list whatever the draws (bounded <= 4); relative distance / distance reward finite, signed and bounded by the priority amplifier (bounded) - the documented [0,6] reward range is KNOWN FINDING F6.",
             "Trusted: powi(2) = x*x; sampler contract; rewards <= 1e4; history link by integer lemma L18 (Verus); reward computation, weighted/argmax selection, MinVariation not under contract.",
             TECH_K, "§3 C18"),
     "C19": ("proof",
